@@ -14,6 +14,8 @@ single Literal operand may contain, as a set of Lit descriptors:
 May-analysis, flow-insensitive; modelled std functions are listed in MODEL below; everything else
 yields UNKNOWN (which rules treat as "cannot analyse" where it matters).
 """
+import re
+
 from .core import (
     Site,
     callee_of,
@@ -353,7 +355,18 @@ def literals_of(prog, body, op, list_params, depth=0, _seen=None):
                 tgt = prog.body_for_callee(c, body) if c.get("decl") != "<indirect>" else None
                 if tgt is not None and "sat::sat_solver::Literal" in tgt.ret_ty:
                     sub = literals_of(prog, tgt, {"c": {"l": 0, "p": list(_field_proj(o.fields))}}, set(), depth + 1, _seen)
-                    out += sub
+                    # what the helper returns in terms of its parameters is what the caller handed over
+                    sub2 = []
+                    for l in sub:
+                        mm = re.match(r"^param#(\d+)$", str(l.note or "")) if l.role == "PARAM" else None
+                        if mm and tgt.kind != "closure" and int(mm.group(1)) - 1 < len(args):
+                            a = args[int(mm.group(1)) - 1]
+                            got = literals_of(prog, body, a, list_params, depth + 1, _seen) if (op_place(a) is not None or op_const(a) is not None) else []
+                            if got:
+                                sub2 += [g.flip() if l.pos is False else g for g in got]
+                                continue
+                        sub2.append(l)
+                    out += sub2
                     # plus what this body pushes onto the returned vector afterwards
                     out += _pushed(prog, body, o.site.node["dst"]["l"], list_params, depth, _seen, fields=o.fields)
                 elif c.get("decl") == "<indirect>" or callee_matches(c, r"ops::function::Fn(Mut|Once)?::call"):
@@ -375,6 +388,9 @@ def literals_of(prog, body, op, list_params, depth=0, _seen=None):
                 out.append(Lit("SEL", True, note="param.selector"))
             else:
                 out.append(Lit("PARAM", None, note="param#%s" % o.data))
+                if body.kind != "closure" and "Vec<sat::sat_solver::Literal>" in body.local_ty(o.data) and not o.fields:
+                    # a vector parameter the body extends before handing it back
+                    out += _pushed(prog, body, o.data, list_params, depth, _seen)
         elif o.kind == "upvar":
             par, cop = _closure_capture_operand(prog, body, o.data)
             if cop is not None:
